@@ -72,7 +72,7 @@ _stub("C12", "Decides structural clauses of C12 on maximum_color's ninja graph a
              "--bitmaps/--colr_version reach their edges); gid-named files agree between the driver's declared outputs, both extractors "
              "and the glyphmap's gid lookup in the source font's order; the mergeable config copies upem/ascender/descender from the "
              "same head/OS/2 fields its siblings read, width 0, names kept; donation copies referenced glyphs, fixes glyph order once, "
-             "reorders before grafting SVG, rejects missing names for CBDT. Also: grafting SVG keeps every donor gid (filler glyphs gid by gid); CBLC strike templates are deep-copied per run. Does NOT decide table-by-table equality of the output font "
+             "reorders before grafting SVG, rejects missing names for CBDT. Also: grafting SVG keeps every donor gid (filler glyphs gid by gid); CBLC strike templates are deep-copied per run. Also: SVGs generated from COLR are not rounded (picosvg rounds opacity too). Does NOT decide table-by-table equality of the output font "
              "or rendering agreement between colour tables.",
       "binary equality of retained tables; rendering agreement between COLR/SVG/CBDT")
 
@@ -81,7 +81,7 @@ _stub("C18", "Decides structural clauses of C18: each master's UFO edge is built
              "variable-font edge depends on every UFO; in the designspace assembly the UFO, style name, source name and location of a "
              "source all derive from the same loop binder, location keys go through axisTag -> name, axis minimum/maximum aggregate "
              "positions filtered on the same tag, default comes from the axis; positions and defaults are not truncated or rounded on loading; _write only serialises (a master UFO is what the static build would compile); same-named sources of different masters get distinct intermediates; validation rejects bitmap / OT-SVG multi-master configs "
-             "and a missing default master. Does NOT decide interpolation, gvar/HVAR/VarStore content or variable clip boxes (ufo2ft).",
+             "and a missing default master. Also: axis defaults and master positions are not coerced to integers; master UFO libs are not edited before the variable font is compiled. Does NOT decide interpolation, gvar/HVAR/VarStore content or variable clip boxes (ufo2ft).",
       "interpolation and all variation data (ufo2ft/fontTools.varLib)")
 
 _stub("C08", "Decides structural clauses of C08 with an order-taint analysis over every module on the font path: set-like values and "
@@ -90,7 +90,7 @@ _stub("C08", "Decides structural clauses of C08 with an order-taint analysis ove
              "exception table keyed by function and construct. Also: no clock/random/pid/id()/hash()/environment reads and no time-stamped containers (gzip without mtime) (with a "
              "positive fixture), no module-level memo tables keyed on part of the input, source paths and build locations flow only to open/parse, sort keys and messages, the first-seen "
              "disambiguation of intermediate names is fed from the sorted source list, workers keep the driver's source order (no re-sorting of build-dir-relative spellings), and the hash-ordered parts file is never read "
-             "by the font writer. Does NOT decide ninja's scheduler, fontTools' SOURCE_DATE_EPOCH handling or external tools.",
+             "by the font writer. Also: every compute-and-store memo table is keyed on all inputs of the stored value that can change while the table lives (R08j); pool completion order counts as unordered. Does NOT decide ninja's scheduler, fontTools' SOURCE_DATE_EPOCH handling or external tools.",
       "ninja scheduling; fontTools timestamps; picosvg/resvg/pngquant determinism; sort ties under non-injective keys")
 
 _stub("C01", "Decides structural clauses of C01: (a) every composition, inverse and application of an affine in the SVG -> Paint -> "
@@ -109,7 +109,7 @@ _stub("C02", "Decides structural clauses of C02: coordinate-space typing of svg.
              "the donor's frame and to a <path> in the target's; a pre-applied gradient transform is not applied twice); the user "
              "transform is bracketed by the y flip in map_viewbox_to_otsvg_space; <use>/id pairing on every path; attribute migration "
              "only when all uses agree; glyph ids read after the reshuffle come from the renumbered mapping and one group list drives "
-             "numbering and emission over all groups; the untouched path deletes only width/height/viewBox/enable-background; picosvg/compressed wiring. Also: each radial-gradient attribute is written under the condition of its own field only; a layer is drawn into its nearest enclosing group. Does NOT decide a renderer's interpretation of <use x y transform>, "
+             "numbering and emission over all groups; the untouched path deletes only width/height/viewBox/enable-background; picosvg/compressed wiring. Also: each radial-gradient attribute is written under the condition of its own field only; a layer is drawn into its nearest enclosing group. Also: rounding a gradient keeps its stop list one to one; the gradient writers emit the gradient they are given. Does NOT decide a renderer's interpretation of <use x y transform>, "
              "3-digit rounding or the Safari nudge's visual effect.",
       "renderer semantics of <use>; rounding to 3 digits; involutory-matrix nudge")
 
@@ -118,7 +118,7 @@ _stub("C06", "Decides structural clauses of C06: coordinate-space typing of both
              "transform only under fixed_safe, the COLR branch returns the wrapper only when the combined gradient transform fits, the "
              "OverflowError fall-back wraps the untouched gradient in the same transform, abandoned reuse reaches the un-reused emission; "
              "every comparison of the reuse tolerance with the 'disabled' sentinel covers the whole negative half-line; look-up and "
-             "insertion use the same key and tolerance. Does NOT decide the metamorphic equality itself or picosvg's affine_between.",
+             "insertion use the same key and tolerance. Also: the gradient of a reused glyph is counter-transformed by (its own wrapper, then the inverse reuse transform) on every path; the reuse transform comes from affine_between only. Does NOT decide the metamorphic equality itself or picosvg's affine_between.",
       "reuse-on == reuse-off equality of rendered glyphs; accuracy of picosvg.affine_between / normalize")
 _stub("C19", "Decides structural clauses of C19: the path looked up for reuse is the path inserted, every new outline is registered, "
              "look-up and insertion normalise with one tolerance derived from the configuration, one font-wide cache; the reuse wrapper "
@@ -165,7 +165,7 @@ _stub("C07", "Decides the few structural necessary conditions of C07: post forma
 _stub("C14", "Decides structural clauses of C14: dimension typing (px, fu, px/em) of every arithmetic expression in the bitmap "
              "metrics; the name, metrics and bytes of each sbix/CBDT record derive from the same glyph and the bytes are the PNG "
              "unchanged; oversize bitmaps are rejected before strikes are built and the 8-bit assertions dominate the metrics' return; "
-             "ppem comes from the single bitmap height of the strike; the pixel advance is max(configured width, bitmap width) on every path like the hmtx advance. Does NOT decide the pixel-exact placement bounds (one/two px) or "
+             "ppem comes from the single bitmap height of the strike; the pixel advance is max(configured width, bitmap width) on every path like the hmtx advance. Also: no value bound for an 8-bit field is clamped to the field's limit. Does NOT decide the pixel-exact placement bounds (one/two px) or "
              "fontTools' packing.",
       "the +-1/+-2 pixel placement bounds; fontTools' CBDT/sbix packing")
 _stub("C15", "Decides structural clauses of C15: the normalisation applied when the palette is built equals the one applied at every "
